@@ -376,6 +376,25 @@ static void options_section(prng_t* g, int thorough) {
     for (int j = 0; j < _mi_option_last; j++) printf(" %ld %d", options[j].value, (int)options[j].init);
     printf("\n");
   }
+  // out-of-range option indices must be ignored: nothing behind the option table may change (the bytes that follow the table in
+  // the data segment are snapshotted; they belong to whatever static object the linker placed there)
+  {
+    enum { TAILN = 3 * sizeof(mi_option_desc_t) };
+    uint8_t before[TAILN]; uint8_t* tail = (uint8_t*)&options[_mi_option_last];
+    options_reset();
+    memcpy(before, tail, TAILN);
+    int bad = 0; long got = 0;
+    for (int d = 0; d < 3; d++) {
+      mi_option_set((mi_option_t)(_mi_option_last + d), 0x5A5A5A5A + d);
+      mi_option_set_default((mi_option_t)(_mi_option_last + d), 0x3C3C3C3C + d);
+      mi_option_set_enabled((mi_option_t)(_mi_option_last + d), true);
+      got |= mi_option_get((mi_option_t)(_mi_option_last + d));
+      if (memcmp(before, tail, TAILN) != 0) { bad = 1 + d; break; }
+    }
+    mi_option_set((mi_option_t)(-1), 77); got |= mi_option_get((mi_option_t)(-1));
+    if (bad) memcpy(tail, before, TAILN);
+    printf("T optrange %d %ld\n", bad, got);
+  }
   // set -> get round trip on every option (implementation-side oracle)
   for (int i = 0; i < _mi_option_last; i++) {
     long vals[] = { 0, 1, -1, 123456, LONG_MAX, LONG_MIN };
